@@ -81,6 +81,21 @@ def render_src(e, t):
             L.append(f"            self.ol <<= {expr.r(e)}")
         finally:
             expr.SUBST.clear()
+    chains = expr.slice_chains(e)
+    if chains:
+        # a slice of a slice bound to a name, and a cast taken from that same Python object: both are emitted (the expression
+        # uses the view, another output the cast) and must name the same bits
+        node = chains[0]
+        w = expr.width(node[1])
+        L.insert(L.index(f"    oq = Port.output({ot})") + 1, f"    onv = Port.output({ot})")
+        L.insert(L.index(f"    oq = Port.output({ot})") + 1, f"    ov = Port.output(Unsigned[{w}])")
+        L += ["        @std.sequential(std.Clock(self.clk))", "        def named():", f"            n0 = {expr.r(node)}", "            c0 = n0.unsigned"]
+        try:
+            expr.SUBST[id(node)] = "n0"
+            L.append(f"            self.onv <<= {expr.r(e)}")
+        finally:
+            expr.SUBST.clear()
+        L.append("            self.ov <<= c0")
     return "\n".join(L) + "\n"
 
 
@@ -117,13 +132,18 @@ def simulate(e, t, design, seed, idx):
     d = dutm.Dut(design, rng.derive(seed, "C02", "order", idx), "c02")
     d.start(dict(vals[0]))
     outs = ("oc", "oq", "ol") if expr.rt_index_picks(e) else ("oc", "oq")
+    chains = expr.slice_chains(e)
+    if chains:
+        outs = outs + ("onv",)
     for k, env in enumerate(vals):
         want = expr.ev(e, env)
         d.clock(env)
+        if chains and d.get("ov") != expr.ev(chains[0], env):
+            return "wrong-value", {"output": "cast of a named slice-of-slice view", "step": k, "operands": env, "expected": expr.ev(chains[0], env), "got": d.get("ov"), "view": expr.r(chains[0])}, len(vals), exhaustive
         for which in outs:
             got = d.get(which)
             if got != want:
-                return "wrong-value", {"output": {"oc": "concurrent", "oq": "clocked", "ol": "clocked, run-time-indexed elements bound before their index variable changes"}[which], "step": k, "operands": env, "expected": want, "got": got}, len(vals), exhaustive
+                return "wrong-value", {"output": {"oc": "concurrent", "oq": "clocked", "ol": "clocked, run-time-indexed elements bound before their index variable changes", "onv": "clocked, slice-of-slice view bound to a name and used next to its cast"}[which], "step": k, "operands": env, "expected": want, "got": got}, len(vals), exhaustive
         d.half()
         if d.get("oc") != want:
             return "wrong-value", {"output": "concurrent", "step": k, "phase": "inactive-edge", "operands": env, "expected": want, "got": d.get("oc")}, len(vals), exhaustive
